@@ -729,6 +729,9 @@ func generateMore(suite string, seed uint64, i int, r *rng, id string, g gp) *Ca
 	case "c19", "c19-a", "c20":
 		// corridor of vertically stacked rectangles, consecutive ones share a boundary segment of positive length
 		k := r.rangeIn(1, 6)
+		if suite == "c20" && r.chance(1, 4) { // long corridors: more than 24 boundary segments
+			k = r.rangeIn(7, 12)
+		}
 		half := func(lo, hi int) float64 { return float64(r.rangeIn(2*lo, 2*hi)) / 2 }
 		var rects []any
 		var L, R, T, B []float64
@@ -951,7 +954,12 @@ func generateMore(suite string, seed uint64, i int, r *rng, id string, g gp) *Ca
 			"cls": "A", "timeout_ms": 4000.0}}
 	case "solve": // C20 root finder: polynomials built from chosen roots (dyadic, so that the coefficients are exact)
 		kind := r.intn(8)
-		rt := func() float64 { return float64(r.rangeIn(-64, 64)) / 8 }
+		rt := func() float64 {
+			if r.chance(1, 12) { // a root exactly 0: the constant term vanishes
+				return 0
+			}
+			return float64(r.rangeIn(-64, 64)) / 8
+		}
 		a := float64(r.rangeIn(1, 6))
 		if r.chance(1, 2) {
 			a = -a
